@@ -1,54 +1,104 @@
 /-
-  `Safe` for the command handlers of `ledger/protocol.py` / `protocol_v1.py`, the dispatch of
-  `comm/protocol.py` and the line handling of `comm/server.py`: against a conforming device, and
-  with no link repair pending, no exception leaves `handle_request`.
+  `SafeTop` for the command handlers of `ledger/protocol.py` / `protocol_v1.py`, the dispatch of
+  `comm/protocol.py` and the line handling of `comm/server.py`: against a conforming device — also one
+  whose link may fail at any exchange (`lf`) — and with no link repair pending, no exception leaves
+  `handle_request`.
 -/
 import PowHsm.Proofs.ConformBlocks
 namespace PowHsm
 open M Dongle Ledger Generated Tbl Spec Comm
 
 namespace Ledger
+variable {lf : Bool}
 
 /-! ### connection handling -/
 
-theorem connect_safe : Safe connect (fun _ => True) (fun _ => False) := by
+theorem connect_safe : Safe lf connect (fun _ => True) (fun _ => False) := by
   intro w hci hc
   unfold connect at hc ⊢
   split
   · exact ⟨hci, trivial⟩
   · exact ⟨hci, trivial⟩
   · rename_i rest hcs
-    simp [hcs, deviceConforms] at hc
+    simp [hcs, deviceOk] at hc
 
-theorem ensureConnection_safe : Safe ensureConnection (fun _ => True) (fun _ => False) := by
+theorem ensureConnection_safe : Safe lf ensureConnection (fun _ => True) (fun _ => False) := by
   intro w hci _
   unfold ensureConnection
   simp [getWorld, M.bind_apply, hci]
 
-theorem waitAndReconnect_safe : Safe waitAndReconnect (fun _ => True) (fun _ => False) := by
+theorem waitAndReconnect_safe : Safe lf waitAndReconnect (fun _ => True) (fun _ => False) := by
   unfold waitAndReconnect
   refine Safe.bind (Tracks.emit (by intro b h; cases h)) (Safe.emit (Q := fun _ => True) trivial) fun _ _ => ?_
   exact Safe.bind disconnect_tracks (Safe.emit (Q := fun _ => True) trivial) fun _ _ => connect_safe
 
 /-! ### the exception maps of the handlers -/
 
-/-- the common `try … except` of the v5 handlers: whatever the body may raise against a
-    conforming device is one of the exceptions mapped to the device-error code, and never the
-    communication error that would flag a link repair -/
-theorem deviceGuard_safe (c : Codes) (wr : Bool) {m : M Out} {E : Exc → Prop} (ht : Tracks m)
-    (hm : Safe m (fun _ => True) E)
+/-- a `try body except …` whose clauses catch everything the body may raise against a conforming
+    device — and every link error — answer without touching the device, and flag a repair only
+    for a communication error, which the body raises only when link faults are allowed -/
+theorem guard_top {m : M Out} {p : Exc → Bool} {h : Exc → M Out} {E : Exc → Prop}
+    (ht : Tracks m) (hm : Safe lf m (fun _ => True) E)
+    (hp : ∀ e, (E e ∨ isLink e = true) → p e = true)
+    (hh : ∀ e w, (E e ∨ isLink e = true) →
+      ∃ o, h e w = ⟨.ok o, [], if isComm e then { w with commIssue := true } else w⟩)
+    (hE : ∀ e, E e → isComm e = false) :
+    SafeTop lf (M.tryCatchIf m p h) (fun _ => True) := by
+  intro w hci hc
+  have s1 := hm w hci
+  unfold M.tryCatchIf at hc ⊢
+  cases hr : m w with
+  | mk v e1 w1 =>
+    rw [hr] at s1 hc
+    cases v with
+    | ok a =>
+      simp only at hc s1 ⊢
+      exact ⟨fun _ => (s1 hc).1, a, rfl, trivial⟩
+    | error e =>
+      simp only at hc s1 ⊢
+      cases hpe : p e with
+      | false =>
+        simp only [hpe, Bool.false_eq_true, if_false] at hc
+        obtain ⟨_, q2⟩ := s1 hc
+        have : p e = true := hp e (by rcases q2 with q | q; exact Or.inl q; exact Or.inr q.2)
+        rw [this] at hpe; cases hpe
+      | true =>
+        simp only [hpe, if_true] at hc ⊢
+        rw [deviceOk_append, Bool.and_eq_true] at hc
+        obtain ⟨q1, q2⟩ := s1 hc.1
+        have hel : E e ∨ isLink e = true := by rcases q2 with q | q; exact Or.inl q; exact Or.inr q.2
+        obtain ⟨o, ho⟩ := hh e w1 hel
+        rw [ho]
+        refine ⟨?_, o, rfl, trivial⟩
+        intro hlf
+        have hcomm : isComm e = false := by
+          rcases q2 with q | q
+          · exact hE e q
+          · rw [hlf] at q; cases q.1
+        simp [hcomm, q1]
+
+theorem deviceGuard_handler (c : Codes) (e : Exc) (w : World) :
+    ∃ o, (do if isComm e then setCommIssue true
+             Pure.pure (c.device, ([] : List (String × Json))) : M Out) w =
+      ⟨.ok o, [], if isComm e then { w with commIssue := true } else w⟩ := by
+  cases hc : isComm e <;> simp [hc, setCommIssue, modifyWorld, M.bind_apply]
+
+theorem link_cases {e : Exc} (h : isLink e = true) : e = .dongleComm ∨ e = .dongleTimeout := by
+  cases e <;> simp [isLink] at h ⊢
+
+/-- the common `try … except` of the v5 handlers -/
+theorem deviceGuard_top (c : Codes) (wr : Bool) {m : M Out} {E : Exc → Prop} (ht : Tracks m)
+    (hm : Safe lf m (fun _ => True) E)
     (hE : ∀ e, E e → (isError e || isTimeout e || (wr && isResult e)) = true ∧ isComm e = false) :
-    Safe (deviceGuard c wr m) (fun _ => True) (fun _ => False) := by
+    SafeTop lf (deviceGuard c wr m) (fun _ => True) := by
   unfold deviceGuard
-  refine Safe.tryCatchIf ht hm ?_ ?_
-  · intro e he _
-    simp only [(hE e he).2, Bool.false_eq_true, if_false]
-    exact Safe.bind (Tracks.pure _) (Safe.pure (Q := fun _ => True) trivial) fun _ _ => Safe.pure trivial
-  · intro e he hp
-    have h1 := (hE e he).1
-    have h2 := (hE e he).2
-    cases h3 : isError e <;> cases h4 : isTimeout e <;> cases h5 : isComm e <;> cases h6 : isResult e <;>
+  refine guard_top ht hm ?_ (fun e w _ => deviceGuard_handler c e w) fun e he => (hE e he).2
+  intro e he
+  rcases he with he | he
+  · have := (hE e he).1
+    cases h1 : isError e <;> cases h2 : isTimeout e <;> cases h3 : isComm e <;> cases h4 : isResult e <;>
       cases wr <;> simp_all
+  · rcases link_cases he with h | h <;> subst h <;> simp [isError, isTimeout, isComm, isResult]
 
 theorem devErr_guard {wr : Bool} (hwr : wr = true) (e : Exc) (he : DevErr e) :
     (isError e || isTimeout e || (wr && isResult e)) = true ∧ isComm e = false := by
@@ -62,28 +112,42 @@ theorem dongleError_guard (wr : Bool) (e : Exc) (he : e = .dongleError) :
     (isError e || isTimeout e || (wr && isResult e)) = true ∧ isComm e = false := by
   subst he; simp [isError, isTimeout, isComm, isResult]
 
-theorem signGuard_safe (c : Codes) {m : M SignOut} (k : SignOut → Out) (ht : Tracks m)
-    (hm : Safe m (fun _ => True) (fun _ => False)) : Safe (signGuard c m k) (fun _ => True) (fun _ => False) := by
+theorem signGuard_top (c : Codes) {m : M SignOut} (k : SignOut → Out) (ht : Tracks m)
+    (hm : Safe lf m (fun _ => True) (fun _ => False)) : SafeTop lf (signGuard c m k) (fun _ => True) := by
   unfold signGuard
-  refine Safe.tryCatchIf (Q := fun _ => True) (E := fun _ => False) ?_ ?_ ?_ ?_
-  · exact Tracks.bind ht fun _ => Tracks.pure _
-  · exact Safe.bind ht hm fun _ _ => Safe.pure trivial
-  · intro e he; exact he.elim
-  · intro e he; exact he.elim
+  refine guard_top (E := fun _ => False) (Tracks.bind ht fun _ => Tracks.pure _)
+    (Safe.bind ht hm fun _ _ => Safe.pure trivial) ?_ ?_ (fun _ h => h.elim)
+  · intro e he
+    rcases he with he | he
+    · exact he.elim
+    · rcases link_cases he with h | h <;> subst h <;> simp [isError, isTimeout, isComm]
+  · intro e w he
+    rcases he with he | he
+    · exact he.elim
+    · rcases link_cases he with h | h <;> subst h <;>
+        simp [isTimeout, isComm, setCommIssue, modifyWorld, M.bind_apply]
 
 /-! ### the handlers -/
 
-theorem getPubkey_safe (c : Codes) (path : List Nat) : Safe (getPubkey c path) (fun _ => True) (fun _ => False) := by
+theorem getPubkey_top (c : Codes) (path : List Nat) : SafeTop lf (getPubkey c path) (fun _ => True) := by
   unfold getPubkey
-  refine Safe.tryCatchIf (Q := fun _ => True) (E := fun e => isResult e = true) ?_ ?_ ?_ ?_
+  refine guard_top (E := fun e => isResult e = true) ?_ ?_ ?_ ?_ ?_
   · repeat' tracks_step
   · refine Safe.bind ensureConnection_tracks (ensureConnection_safe.weaken (fun _ h => h) fun _ h => h.elim) fun _ _ => ?_
     exact Safe.bind (getPublicKey_tracks _) (getPublicKey_safe path) fun _ _ => Safe.pure trivial
-  · intro e he _
-    simp only [he, if_true]
-    exact Safe.pure trivial
-  · intro e he hp
-    simp [he] at hp
+  · intro e he
+    rcases he with he | he
+    · simp [he]
+    · rcases link_cases he with h | h <;> subst h <;> simp [isError, isTimeout, isComm, isResult]
+  · intro e w he
+    rcases he with he | he
+    · cases e <;> simp [isResult] at he
+      simp [isResult, isComm]
+    · rcases link_cases he with h | h <;> subst h <;>
+        simp [isResult, isTimeout, isComm, setCommIssue, modifyWorld, M.bind_apply]
+  · intro e he
+    cases e <;> simp [isResult] at he
+    simp [isComm]
 
 theorem validateMessage_tx_input (c : Codes) (req : List (String × Json)) (hc : c.invalidMessage < 0)
     (hv : ¬ validateMessage c req .tx < 0) :
@@ -113,46 +177,46 @@ theorem validateMessage_tx_input (c : Codes) (req : List (String × Json)) (hc :
     · cases hin
   · exact absurd hc hv
 
-theorem signV5_safe (c : Codes) (req : List (String × Json)) (path : List Nat) (hc : c.invalidMessage < 0) :
-    Safe (signV5 c req path) (fun _ => True) (fun _ => False) := by
+theorem signV5_top (c : Codes) (req : List (String × Json)) (path : List Nat) (hc : c.invalidMessage < 0) :
+    SafeTop lf (signV5 c req path) (fun _ => True) := by
   unfold signV5
   dsimp only
   repeat' split
   all_goals first
-    | exact Safe.pure trivial
-    | exact signGuard_safe c _ (Tracks.bind ensureConnection_tracks fun _ => signUnauthorized_tracks _ _)
+    | exact SafeTop.pure trivial
+    | exact signGuard_top c _ (Tracks.bind ensureConnection_tracks fun _ => signUnauthorized_tracks _ _)
         (Safe.bind ensureConnection_tracks ensureConnection_safe fun _ _ => signUnauthorized_safe _ _)
-    | (refine signGuard_safe c _ (Tracks.bind ensureConnection_tracks fun _ => signAuthorized_tracks _)
+    | (refine signGuard_top c _ (Tracks.bind ensureConnection_tracks fun _ => signAuthorized_tracks _)
         (Safe.bind ensureConnection_tracks ensureConnection_safe fun _ _ => signAuthorized_safe _ ?_)
        have hin := validateMessage_tx_input c req hc (by assumption)
        first
          | (simp only [*] at hin; exact hin)
          | (dsimp only; omega))
 
-theorem signV1_safe (c : Codes) (req : List (String × Json)) (path : List Nat) :
-    Safe (signV1 c req path) (fun _ => True) (fun _ => False) := by
+theorem signV1_top (c : Codes) (req : List (String × Json)) (path : List Nat) :
+    SafeTop lf (signV1 c req path) (fun _ => True) := by
   unfold signV1
-  refine signGuard_safe c _ ?_ ?_
+  refine signGuard_top c _ ?_ ?_
   · exact Tracks.bind ensureConnection_tracks fun _ => signUnauthorized_tracks _ _
   · exact Safe.bind ensureConnection_tracks ensureConnection_safe fun _ _ => signUnauthorized_safe _ _
 
-theorem blockchainState_safe (c : Codes) : Safe (blockchainState c) (fun _ => True) (fun _ => False) := by
+theorem blockchainState_top (c : Codes) : SafeTop lf (blockchainState c) (fun _ => True) := by
   unfold blockchainState
-  refine deviceGuard_safe c true (E := DevErr) ?_ ?_ (devErr_guard rfl)
+  refine deviceGuard_top c true (E := DevErr) ?_ ?_ (devErr_guard rfl)
   · repeat' tracks_step
   · refine Safe.bind ensureConnection_tracks (ensureConnection_safe.weaken (fun _ h => h) fun _ h => h.elim) fun _ _ => ?_
     exact Safe.bind getBlockchainState_tracks getBlockchainState_safe fun _ _ => Safe.pure trivial
 
-theorem resetAdvance_safe (c : Codes) : Safe (resetAdvance c) (fun _ => True) (fun _ => False) := by
+theorem resetAdvance_top (c : Codes) : SafeTop lf (resetAdvance c) (fun _ => True) := by
   unfold resetAdvance
-  refine deviceGuard_safe c true (E := DevErr) ?_ ?_ (devErr_guard rfl)
+  refine deviceGuard_top c true (E := DevErr) ?_ ?_ (devErr_guard rfl)
   · repeat' tracks_step
   · refine Safe.bind ensureConnection_tracks (ensureConnection_safe.weaken (fun _ h => h) fun _ h => h.elim) fun _ _ => ?_
     exact Safe.bind resetAdvanceBlockchain_tracks resetAdvanceBlockchain_safe fun _ _ => Safe.pure trivial
 
-theorem blockchainParameters_safe (c : Codes) : Safe (blockchainParameters c) (fun _ => True) (fun _ => False) := by
+theorem blockchainParameters_top (c : Codes) : SafeTop lf (blockchainParameters c) (fun _ => True) := by
   unfold blockchainParameters
-  refine deviceGuard_safe c true (E := DevErr) ?_ ?_ (devErr_guard rfl)
+  refine deviceGuard_top c true (E := DevErr) ?_ ?_ (devErr_guard rfl)
   · repeat' tracks_step
   · refine Safe.bind ensureConnection_tracks (ensureConnection_safe.weaken (fun _ h => h) fun _ h => h.elim) fun _ _ => ?_
     exact Safe.bind getSignerParameters_tracks getSignerParameters_safe fun _ _ => Safe.pure trivial
@@ -169,28 +233,28 @@ theorem strList_blocks_length (req : List (String × Json)) (h : BlocksBounded r
     simpa using h xs hx
   · simp
 
-theorem advance_safe (hs : Hashes) (c : Codes) (req : List (String × Json)) (hb : BlocksBounded req) :
-    Safe (advance hs c req) (fun _ => True) (fun _ => False) := by
+theorem advance_top (hs : Hashes) (c : Codes) (req : List (String × Json)) (hb : BlocksBounded req) :
+    SafeTop lf (advance hs c req) (fun _ => True) := by
   unfold advance
-  refine deviceGuard_safe c false (E := fun e => e = .dongleError) ?_ ?_ (dongleError_guard false)
+  refine deviceGuard_top c false (E := fun e => e = .dongleError) ?_ ?_ (dongleError_guard false)
   · repeat' tracks_step
   · refine Safe.bind ensureConnection_tracks (ensureConnection_safe.weaken (fun _ h => h) fun _ h => h.elim) fun _ _ => ?_
     dsimp only
     exact Safe.bind (advanceBlockchain_tracks _ _ _)
       (advanceBlockchain_safe hs _ _ (strList_blocks_length req hb)) fun _ _ => Safe.pure trivial
 
-theorem updateAncestorBlock_safe (hs : Hashes) (c : Codes) (req : List (String × Json)) (hb : BlocksBounded req) :
-    Safe (updateAncestorBlock hs c req) (fun _ => True) (fun _ => False) := by
+theorem updateAncestorBlock_top (hs : Hashes) (c : Codes) (req : List (String × Json)) (hb : BlocksBounded req) :
+    SafeTop lf (updateAncestorBlock hs c req) (fun _ => True) := by
   unfold updateAncestorBlock
-  refine deviceGuard_safe c false (E := fun e => e = .dongleError) ?_ ?_ (dongleError_guard false)
+  refine deviceGuard_top c false (E := fun e => e = .dongleError) ?_ ?_ (dongleError_guard false)
   · repeat' tracks_step
   · refine Safe.bind ensureConnection_tracks (ensureConnection_safe.weaken (fun _ h => h) fun _ h => h.elim) fun _ _ => ?_
     exact Safe.bind (updateAncestor_tracks _ _)
       (updateAncestor_safe hs _ (strList_blocks_length req hb)) fun _ _ => Safe.pure trivial
 
-theorem signerHb_safe (c : Codes) (req : List (String × Json)) : Safe (signerHb c req) (fun _ => True) (fun _ => False) := by
+theorem signerHb_top (c : Codes) (req : List (String × Json)) : SafeTop lf (signerHb c req) (fun _ => True) := by
   unfold signerHb
-  refine deviceGuard_safe c false (E := fun _ => False) ?_ ?_ (fun _ h => h.elim)
+  refine deviceGuard_top c false (E := fun _ => False) ?_ ?_ (fun _ h => h.elim)
   · exact Tracks.bind ensureConnection_tracks fun _ => Tracks.bind (heartbeatRun_tracks _ _ _) fun _ => Tracks.pure _
   · refine Safe.bind ensureConnection_tracks ensureConnection_safe fun _ _ => ?_
     exact Safe.bind (heartbeatRun_tracks _ _ _) (signerHeartbeat_safe _) fun _ _ => Safe.pure trivial
@@ -201,11 +265,11 @@ theorem uiHeartbeat_tracks (ud : Bytes) : Tracks (uiHeartbeat ud) := heartbeatRu
 theorem exitAppLenient_tracks : Tracks exitAppLenient := by
   unfold exitAppLenient; repeat' tracks_step
 
-/-- asking the running app to exit: the link drop is expected and swallowed; an error status
-    is passed on to the handler's guard -/
-theorem exitAppLenient_safe : Safe exitAppLenient (fun _ => True) (fun e => isResult e = true) := by
+/-- asking the running app to exit: the link drop is expected and swallowed (a time-out is not);
+    an error status is passed on to the handler's guard -/
+theorem exitAppLenient_safe : Safe lf exitAppLenient (fun _ => True) (fun e => isResult e = true) := by
   unfold exitAppLenient
-  refine Safe.tryCatchIf (Q := fun _ => True) (E := ResOrExit (u8 Command_EXIT_MENU)) exitApp_tracks ?_ ?_ ?_
+  refine Safe.tryCatchIf' (Q := fun _ => True) (E := ResOrExit (u8 Command_EXIT_MENU)) exitApp_tracks ?_ ?_ ?_ ?_
   · unfold exitApp
     exact Safe.bind (sendCommand_tracks _ _) (sendCommand_safe _ _) fun _ _ => Safe.pure trivial
   · intro e _ _; exact Safe.pure trivial
@@ -213,10 +277,11 @@ theorem exitAppLenient_safe : Safe exitAppLenient (fun _ => True) (fun e => isRe
     rcases he with h | ⟨h, _⟩
     · exact h
     · subst h; simp [isComm] at hp
+  · intro e _ _ _; exact Safe.pure trivial
 
-theorem uiHb_safe (c : Codes) (req : List (String × Json)) : Safe (uiHb c req) (fun _ => True) (fun _ => False) := by
+theorem uiHb_top (c : Codes) (req : List (String × Json)) : SafeTop lf (uiHb c req) (fun _ => True) := by
   unfold uiHb
-  refine deviceGuard_safe c true (E := fun e => isResult e = true) ?_ ?_
+  refine deviceGuard_top c true (E := fun e => isResult e = true) ?_ ?_
     (fun e he => devErr_guard rfl e (Or.inl he))
   · have := exitAppLenient_tracks
     have := uiHeartbeat_tracks (udBytes req)
@@ -226,10 +291,9 @@ theorem uiHb_safe (c : Codes) (req : List (String × Json)) : Safe (uiHb c req) 
     dsimp only
     split
     · exact Safe.pure trivial
-    · -- `go`: leave the signer for the UI heartbeat mode
-      have hreconnect : Safe waitAndReconnect (fun _ => True) (fun e => isResult e = true) :=
+    · have hreconnect : Safe lf waitAndReconnect (fun _ => True) (fun e => isResult e = true) :=
         waitAndReconnect_safe.weaken (fun _ h => h) fun _ h => h.elim
-      have hmode : Safe getCurrentMode (fun _ => True) (fun e => isResult e = true) :=
+      have hmode : Safe lf getCurrentMode (fun _ => True) (fun e => isResult e = true) :=
         getCurrentMode_safe.weaken (fun _ _ => trivial) fun _ h => h
       refine Safe.bind (Q := fun _ => True) ?_ ?_ fun r _ => ?_
       · have := exitAppLenient_tracks
@@ -261,6 +325,7 @@ end PowHsm
 namespace PowHsm
 open M Dongle Ledger Generated Tbl Spec Comm
 namespace Ledger
+variable {lf : Bool}
 
 /-! ### `Tracks` for the handlers, the dispatch and the line handling -/
 
@@ -357,65 +422,60 @@ theorem gate_ok {c : Codes} {kvs : List (String × Json)} {name : String} (h : g
     | (cases h; simp_all)
 
 /-- every command the gate lets through has a handler, and none of the handlers lets an exception
-    out against a conforming device -/
-theorem operate_safe (m : Mode) (hs : Hashes) (name : String) (kvs : List (String × Json)) (path : List Nat)
+    out against a conforming device, link faults or not -/
+theorem operate_top (m : Mode) (hs : Hashes) (name : String) (kvs : List (String × Json)) (path : List Nat)
     (hname : (codes m).commands.contains name = true) (hb : BlocksBounded kvs) :
-    Safe (operate m hs name kvs path) (fun _ => True) (fun _ => False) := by
+    SafeTop lf (operate m hs name kvs path) (fun _ => True) := by
   have hneg := codes_invalidMessage_neg m
   have hmem : name ∈ (codes m).commands := by simpa using hname
   cases m with
   | v5 =>
     simp only [codes, v5_commands, List.mem_cons, List.mem_nil_iff, or_false] at hmem
     rcases hmem with h | h | h | h | h | h | h | h | h | h <;> subst h <;> simp only [operate]
-    · exact Safe.pure trivial
-    · exact signV5_safe _ _ _ hneg
-    · exact getPubkey_safe _ _
-    · exact advance_safe _ _ _ hb
-    · exact resetAdvance_safe _
-    · exact blockchainState_safe _
-    · exact updateAncestorBlock_safe _ _ _ hb
-    · exact blockchainParameters_safe _
-    · exact signerHb_safe _ _
-    · exact uiHb_safe _ _
+    · exact SafeTop.pure trivial
+    · exact signV5_top _ _ _ hneg
+    · exact getPubkey_top _ _
+    · exact advance_top _ _ _ hb
+    · exact resetAdvance_top _
+    · exact blockchainState_top _
+    · exact updateAncestorBlock_top _ _ _ hb
+    · exact blockchainParameters_top _
+    · exact signerHb_top _ _
+    · exact uiHb_top _ _
   | v1 =>
     simp only [codes, v1_commands, List.mem_cons, List.mem_nil_iff, or_false] at hmem
     rcases hmem with h | h | h <;> subst h <;> simp only [operate]
-    · exact Safe.pure trivial
-    · exact signV1_safe _ _ _
-    · exact getPubkey_safe _ _
+    · exact SafeTop.pure trivial
+    · exact signV1_top _ _ _
+    · exact getPubkey_top _ _
 
 /-- a request whose `blocks` list (if it has one) has fewer than 2^32 members -/
 def Bounded (j : Json) : Prop := ∀ kvs, j = .obj kvs → BlocksBounded kvs
 
 /-- **no exception leaves `handle_request`** while no link repair is pending and the device keeps
-    to its protocol — for every JSON value, in both protocol modes -/
-theorem handleRequest_safe (m : Mode) (hs : Hashes) (j : Json) (hb : Bounded j) :
-    Safe (handleRequest m hs j) (fun _ => True) (fun _ => False) := by
+    to its protocol — even if the link fails at any exchange (`lf`) — for every JSON value, in both
+    protocol modes -/
+theorem handleRequest_top (m : Mode) (hs : Hashes) (j : Json) (hb : Bounded j) :
+    SafeTop lf (handleRequest m hs j) (fun _ => True) := by
   unfold handleRequest
   dsimp only
   split
   · rename_i kvs
     split
-    · exact Safe.pure trivial
+    · exact SafeTop.pure trivial
     · rename_i name hg
       split
-      · exact Safe.pure trivial
-      · exact Safe.bind (operate_tracks _ _ _ _ _) (operate_safe m hs name kvs _ (gate_ok hg) (hb kvs rfl))
-          fun _ _ => Safe.pure trivial
-  · exact Safe.pure trivial
+      · exact SafeTop.pure trivial
+      · exact SafeTop.bind_pure (operate_top m hs name kvs _ (gate_ok hg) (hb kvs rfl)) _ fun _ _ => trivial
+  · exact SafeTop.pure trivial
 
 /-! ### lines and lifetimes -/
 
-theorem Safe.and_returns {m : M α} {Q P : α → Prop} {E : Exc → Prop} (h : Safe m Q E) (hr : M.Returns P m) :
-    Safe m (fun a => Q a ∧ P a) E := by
+theorem SafeTop.and_returns {m : M α} {Q P : α → Prop} (h : SafeTop lf m Q) (hr : M.Returns P m) :
+    SafeTop lf m (fun a => Q a ∧ P a) := by
   intro w hci hc
-  obtain ⟨h1, h2⟩ := h w hci hc
-  refine ⟨h1, ?_⟩
-  have hr' := hr w
-  revert h2 hr'
-  cases (m w).val with
-  | ok a => intro h2 hr'; exact ⟨h2, hr' a rfl⟩
-  | error e => intro h2 _; exact h2
+  obtain ⟨h1, a, h2, h3⟩ := h w hci hc
+  exact ⟨h1, a, h2, h3, hr w a h2⟩
 
 def ParsedBounded : Parsed → Prop
   | .ok j => Bounded j
@@ -425,20 +485,34 @@ def ParsedBounded : Parsed → Prop
     the server goes on -/
 def Served (R : Json → Prop) (lo : LineOut) : Prop := lo.exc = none ∧ R lo.reply ∧ lo.shutdown = false
 
-theorem handleLine_safe (m : Mode) (hs : Hashes) (p : Parsed) (R : Json → Prop)
+theorem handleLine_top (m : Mode) (hs : Hashes) (p : Parsed) (R : Json → Prop)
     (hR : ∀ j, M.Returns R (handleRequest m hs j)) (hfmt : R (errReply (codes m).formatError))
-    (hb : ParsedBounded p) : Safe (handleLine m hs p) (Served R) (fun _ => False) := by
+    (hb : ParsedBounded p) : SafeTop lf (handleLine m hs p) (Served R) := by
   unfold handleLine
   dsimp only
   split
-  · exact Safe.pure ⟨rfl, hfmt, rfl⟩
-  · exact Safe.pure ⟨rfl, hfmt, rfl⟩
+  · exact SafeTop.pure ⟨rfl, hfmt, rfl⟩
+  · exact SafeTop.pure ⟨rfl, hfmt, rfl⟩
   · rename_i j
-    have hs' := (Safe.and_returns (handleRequest_safe m hs j hb) (hR j)).attempt
-    refine Safe.bind (Tracks.attempt (handleRequest_tracks _ _ _)) hs' fun r hr => ?_
-    split
-    · exact Safe.pure ⟨rfl, hr.2, rfl⟩
-    all_goals exact hr.elim
+    have ht := SafeTop.and_returns (handleRequest_top (lf := lf) m hs j hb) (hR j)
+    intro w hci hc
+    rw [M.bind_apply, M.attempt_apply] at hc ⊢
+    have hw := ht w hci
+    generalize handleRequest m hs j w = q at hc hw ⊢
+    obtain ⟨v, e1, w1⟩ := q
+    simp only at hc hw ⊢
+    cases v with
+    | ok r =>
+      simp only [M.pure_apply, List.append_nil] at hc ⊢
+      obtain ⟨h1, a, h2, _, h4⟩ := hw hc
+      injection h2 with h2
+      subst h2
+      exact ⟨h1, _, rfl, rfl, h4, rfl⟩
+    | error e =>
+      have hev : deviceOk lf w.script e1 = true := by
+        cases e <;> simpa using hc
+      obtain ⟨_, a, h2, _⟩ := hw hev
+      cases h2
 
 theorem serve_tracks (m : Mode) (hs : Hashes) : ∀ ps, Tracks (serve m hs ps) := by
   intro ps
@@ -451,21 +525,22 @@ theorem serve_tracks (m : Mode) (hs : Hashes) : ∀ ps, Tracks (serve m hs ps) :
     · exact Tracks.pure _
     · exact Tracks.bind ih fun _ => Tracks.pure _
 
-theorem serve_safe (m : Mode) (hs : Hashes) (R : Json → Prop)
+/-- a whole lifetime (no link faults: after one, the next request runs the repair) -/
+theorem serve_top (m : Mode) (hs : Hashes) (R : Json → Prop)
     (hR : ∀ j, M.Returns R (handleRequest m hs j)) (hfmt : R (errReply (codes m).formatError)) :
     ∀ ps, (∀ p ∈ ps, ParsedBounded p) →
-      Safe (serve m hs ps) (fun los => los.length = ps.length ∧ ∀ lo ∈ los, Served R lo) (fun _ => False) := by
+      SafeTop false (serve m hs ps) (fun los => los.length = ps.length ∧ ∀ lo ∈ los, Served R lo) := by
   intro ps
   induction ps with
-  | nil => intro _; unfold serve; exact Safe.pure ⟨rfl, by simp⟩
+  | nil => intro _; unfold serve; exact SafeTop.pure ⟨rfl, by simp⟩
   | cons p ps ih =>
     intro hb
     unfold serve
-    refine Safe.bind (handleLine_tracks _ _ _) (handleLine_safe m hs p R hR hfmt (hb p (by simp))) fun lo hlo => ?_
+    refine SafeTop.bind rfl (handleLine_tracks _ _ _) (handleLine_top m hs p R hR hfmt (hb p (by simp))) fun lo hlo => ?_
     have hsd : lo.shutdown = false := hlo.2.2
     simp only [hsd, Bool.false_eq_true, if_false]
-    refine Safe.bind (serve_tracks _ _ _) (ih fun q hq => hb q (by simp [hq])) fun rest hrest => ?_
-    refine Safe.pure ⟨by simp [hrest.1], ?_⟩
+    refine SafeTop.bind_pure (ih fun q hq => hb q (by simp [hq])) _ fun rest hrest => ?_
+    refine ⟨by simp [hrest.1], ?_⟩
     intro x hx
     simp only [List.mem_cons] at hx
     rcases hx with rfl | hx
